@@ -57,7 +57,8 @@ def run(chk, tier):
             if res[j] != res[j + 1]:
                 chk.violation(f"{xops[j][:150]} [shadow≠native {cn}]", {"kind": "config-divergence", "configs": ["shadow", cn], "ops": [xops[j], xops[j + 1]],
                                                                         "shadow": res[j], "native": res[j + 1]})
-    from . import conf
+    from . import conf, fs32
+    fs32.run(chk, 16 if quick else 600, roundtrip=False, per_block=False)   # the 32-bit fixsliced backend against the native types
     conf.kuz_backend_corr(chk, 40 if quick else 1500)
     chk.assumptions.append("ARMv8 AES and NEON Kuznyechik: the repository's source files are compiled into the harness over software "
                            "intrinsics (Armv8Aes*, NeonKuznyechik* registry types) and compared with the native backends and their Lean "
